@@ -4,6 +4,7 @@ package gen
 
 import (
 	"fmt"
+	"os"
 	"math/rand"
 	"sort"
 
@@ -14,6 +15,14 @@ import (
 type Features struct {
 	Xor, And, Or, Loop, CondFlow, Sub, NoDefault, EndInBranch bool
 	MaxDepth, MaxSize, MaxBranch, SubWeight                   int
+	// EmptyBranch: a branch of a gateway block may be a bare sequence flow from the fork to the join.
+	// OlderVar: a gateway may read a variable written earlier on the way (by whichever token ran
+	// the writing task), not only the result of a decision task directly in front of it; writes
+	// that could be concurrent with the read are never chosen.
+	// Throws: intermediate throw events (a signal nobody listens for) as pass-through nodes.
+	EmptyBranch, OlderVar, Throws bool
+	// NoSteer: do not steer around the scenarios of open findings (sentinel programs only)
+	NoSteer bool
 }
 
 type G struct {
@@ -23,6 +32,21 @@ type G struct {
 	nvar int
 	tags map[string]bool
 	ctx  []string // kinds of the enclosing blocks, outermost first
+	// avail: three-valued variables whose writers all lie in the sequential past of the point
+	// being generated (never concurrent with it)
+	avail []string
+	// wide: number of enclosing forks with three or more branches (parallel block, activity
+	// with conditional flows)
+	wide int
+}
+
+func (g *G) inCtx(k string) bool {
+	for _, e := range g.ctx {
+		if e == k {
+			return true
+		}
+	}
+	return false
 }
 
 // enter records that a block of kind k is being generated inside the current
@@ -50,6 +74,10 @@ func (g *G) freshVar(dom []int) string {
 // directly before the gateway.  Returns the variable and the decision task
 // ("" if input).
 func (g *G) decision(scope string, dom []int) (string, string) {
+	if g.f.OlderVar && len(g.avail) > 0 && g.r.Intn(3) == 0 {
+		g.tag("older-var")
+		return g.avail[g.r.Intn(len(g.avail))], ""
+	}
 	v := g.freshVar(dom)
 	g.b.P.Vars0[v] = dom[g.r.Intn(len(dom))]
 	if g.r.Intn(3) == 0 {
@@ -57,12 +85,41 @@ func (g *G) decision(scope string, dom []int) (string, string) {
 	}
 	t := g.b.AddNode("task", scope)
 	g.b.N(t).Writes = []string{v}
+	if len(dom) == 3 {
+		g.avail = append(g.avail, v)
+	}
 	return v, t
 }
 
 func (g *G) task(scope string) (string, string) {
+	if g.f.Throws && g.r.Intn(6) == 0 {
+		g.tag("throw")
+		h := g.b.AddNode("throw", scope)
+		g.b.N(h).Evs = []prog.EvDef{{K: "signal", Ref: "Z"}}
+		t := g.b.AddNode("task", scope)
+		g.b.Connect(h, t, prog.Cond{})
+		return h, t
+	}
 	t := g.b.AddNode("task", scope)
+	// a plain task may write a variable later gateways read
+	if g.f.OlderVar && g.r.Intn(3) == 0 {
+		v := g.freshVar([]int{0, 1, 2})
+		g.b.P.Vars0[v] = g.r.Intn(3)
+		g.b.N(t).Writes = []string{v}
+		g.avail = append(g.avail, v)
+	}
 	return t, t
+}
+
+// branches runs gen for each of k concurrent (or alternative) branches: inside a branch only what
+// was available before the block may be read; after the block everything written in any
+// branch is in the past.
+func (g *G) branch(f func()) []string {
+	before := append([]string(nil), g.avail...)
+	f()
+	written := append([]string(nil), g.avail[len(before):]...)
+	g.avail = before
+	return written
 }
 
 // block builds a single-entry fragment; out == "" means every path of the
@@ -79,7 +136,11 @@ func (g *G) block(scope string, depth, size int, noTerm bool) (in, out string) {
 	if g.f.And {
 		kinds = append(kinds, "and", "and")
 	}
-	if g.f.Or {
+	// open findings F6b / F6c (DESIGN section 8): an inclusive gateway inside a branch of another
+	// inclusive fork, or inside a branch of a fork with three or more branches, waits for tokens
+	// that merely share that outer fork.  Random programs steer around both scenarios (C05 keeps
+	// sentinel shapes for them) so that the rest of each property stays checked on every seed.
+	if g.f.Or && (g.f.NoSteer || (!g.inCtx("or") && g.wide == 0)) {
 		kinds = append(kinds, "or", "or")
 	}
 	if g.f.Loop {
@@ -110,15 +171,28 @@ func (g *G) block(scope string, depth, size int, noTerm bool) (in, out string) {
 	case "and":
 		defer g.enter("and")()
 		k := 2 + g.r.Intn(g.f.MaxBranch-1)
+		if k >= 3 {
+			g.wide++
+			defer func() { g.wide-- }()
+		}
 		fork := g.b.AddNode("and", scope)
 		join := g.b.AddNode("and", scope)
+		var written []string
 		for i := 0; i < k; i++ {
-			// a branch of a parallel block must reach the join (a token that
-			// ended elsewhere would leave the join waiting for ever)
-			bi, bo := g.block(scope, depth+1, size/k, true)
-			g.b.Connect(fork, bi, prog.Cond{})
-			g.b.Connect(bo, join, prog.Cond{})
+			if g.f.EmptyBranch && i > 0 && g.r.Intn(5) == 0 {
+				g.b.Connect(fork, join, prog.Cond{})
+				g.tag("and-emptybranch")
+				continue
+			}
+			written = append(written, g.branch(func() {
+				// a branch of a parallel block must reach the join (a token that
+				// ended elsewhere would leave the join waiting for ever)
+				bi, bo := g.block(scope, depth+1, size/k, true)
+				g.b.Connect(fork, bi, prog.Cond{})
+				g.b.Connect(bo, join, prog.Cond{})
+			})...)
 		}
+		g.avail = append(g.avail, written...)
 		return fork, join
 	case "loop":
 		defer g.enter("loop")()
@@ -147,13 +221,19 @@ func (g *G) block(scope string, depth, size int, noTerm bool) (in, out string) {
 		t := g.b.AddNode("task", scope)
 		g.b.N(t).Writes = []string{v}
 		k := 2 + g.r.Intn(2)
+		if k >= 3 {
+			g.wide++
+			defer func() { g.wide-- }()
+		}
 		for i := 0; i < k; i++ {
-			bi, bo := g.block(scope, depth+1, size/k, false)
-			g.b.Connect(t, bi, g.randCond(v, 3, i, k))
-			if bo != "" {
-				e := g.b.AddNode("end", scope)
-				g.b.Connect(bo, e, prog.Cond{})
-			}
+			g.branch(func() {
+				bi, bo := g.block(scope, depth+1, size/k, false)
+				g.b.Connect(t, bi, g.randCond(v, 3, i, k))
+				if bo != "" {
+					e := g.b.AddNode("end", scope)
+					g.b.Connect(bo, e, prog.Cond{})
+				}
+			})
 		}
 		return t, ""
 	case "sub":
@@ -195,9 +275,15 @@ func (g *G) split(kind, scope string, depth, size int, noTerm bool) (string, str
 	}
 	hasDefault := !(g.f.NoDefault && g.r.Intn(4) == 0)
 	defPos := g.r.Intn(k)
+	var written []string
 	for i := 0; i < k; i++ {
 		var bi, bo string
-		if g.f.EndInBranch && !noTerm && g.r.Intn(5) == 0 {
+		before := append([]string(nil), g.avail...)
+		if g.f.EmptyBranch && g.r.Intn(5) == 0 {
+			// a bare sequence flow from the fork to the join
+			bi, bo = join, ""
+			g.tag(kind + "-emptybranch")
+		} else if g.f.EndInBranch && !noTerm && g.r.Intn(5) == 0 {
 			bi, _ = g.task(scope)
 			e := g.b.AddNode("end", scope)
 			g.b.Connect(bi, e, prog.Cond{})
@@ -226,7 +312,10 @@ func (g *G) split(kind, scope string, depth, size int, noTerm bool) (string, str
 		if bo != "" {
 			g.b.Connect(bo, join, prog.Cond{})
 		}
+		written = append(written, g.avail[len(before):]...)
+		g.avail = before
 	}
+	g.avail = append(g.avail, written...)
 	if !hasDefault {
 		g.tag(kind + "-nodefault")
 	}
@@ -248,6 +337,9 @@ func (g *G) split(kind, scope string, depth, size int, noTerm bool) (string, str
 func Random(name string, seed int64, f Features) *prog.Program {
 	if f.MaxBranch < 2 {
 		f.MaxBranch = 2
+	}
+	if os.Getenv("VERIF_NOSTEER") != "" { // experiments only
+		f.NoSteer = true
 	}
 	g := &G{b: prog.NewBuilder(name), r: rand.New(rand.NewSource(seed)), f: f, tags: map[string]bool{}}
 	s := g.b.AddNode("start", "")
